@@ -63,12 +63,21 @@ fn ident(r: Request<()>) -> Result<Request<()>, Status> {
     Ok(r)
 }
 
+/// An interceptor that hands on a request it built itself (metadata copied over), as one that
+/// "sanitises" requests does; where the call goes is not the interceptor's to change.
+fn rebuild(r: Request<()>) -> Result<Request<()>, Status> {
+    let mut n = Request::new(());
+    *n.metadata_mut() = r.metadata().clone();
+    Ok(n)
+}
+
 /// Add service `i` to `routes` (optionally behind an identity interceptor).
 pub fn add(routes: Routes, i: usize, h: H, wrap: bool) -> Routes {
     macro_rules! go {
         ($ctor:expr) => {{
             if wrap {
-                routes.add_service(InterceptedService::new($ctor, ident as fn(Request<()>) -> Result<Request<()>, Status>))
+                let f = if i % 2 == 0 { ident } else { rebuild };
+                routes.add_service(InterceptedService::new($ctor, f as fn(Request<()>) -> Result<Request<()>, Status>))
             } else {
                 routes.add_service($ctor)
             }
